@@ -9,7 +9,7 @@ func genC18(tier string) (map[string]string, error) {
 	var sb strings.Builder
 	sb.WriteString(numericHeader)
 	sb.WriteString(fix128Helpers)
-	sb.WriteString("//verif:assume kernel: numbers (24 types), Bool, Address, Path (identifier <= 3 bytes); operands of equal type; strings/characters (NFC), type values, enums, optionals/containers and the atree dictionary itself are outside\n")
+	sb.WriteString("//verif:assume kernel: numbers (24 types), Bool, Address, Path (identifier <= 3 bytes), String values with directly given (already normalised) content <= 3 bytes; operands of equal type; string normalisation/characters (NFC), type values, enums, optionals/containers and the atree dictionary itself are outside\n")
 	sb.WriteString("//verif:assume Equal is compared with mathematical equality and the comparisons with the mathematical order, from which reflexivity, symmetry, transitivity, totality and consistency follow; hash input: equal values give identical bytes and different values different bytes (within a type)\n")
 	sb.WriteString(`
 func zzSameBytes(a, b []byte) bool {
